@@ -49,12 +49,17 @@ fn show(n: &N, out: &mut String) {
     }
 }
 
+fn eqi(a: char, b: char) -> bool {
+    let one = |mut it: std::char::ToLowercase| { let c = it.next(); if it.next().is_none() { c } else { None } };
+    let oneu = |mut it: std::char::ToUppercase| { let c = it.next(); if it.next().is_none() { c } else { None } };
+    a == b || one(a.to_lowercase()) == Some(b) || oneu(a.to_uppercase()) == Some(b) || one(b.to_lowercase()) == Some(a) || oneu(b.to_uppercase()) == Some(a)
+}
 fn ends(n: &N, s: &[char], i: usize, fl: &str) -> BTreeSet<usize> {
     let mut r = BTreeSet::new();
     match n {
-        N::Ch(c) => if i < s.len() && s[i] == *c { r.insert(i + 1); },
+        N::Ch(c) => if i < s.len() && (s[i] == *c || (fl.contains('i') && eqi(s[i], *c))) { r.insert(i + 1); },
         N::Dot => if i < s.len() && (fl.contains('s') || (s[i] != '\n' && s[i] != '\r')) { r.insert(i + 1); },
-        N::Cls(m, neg) => if i < s.len() && (m.contains(s[i]) != *neg) { r.insert(i + 1); },
+        N::Cls(m, neg) => if i < s.len() && ((m.contains(s[i]) || (fl.contains('i') && m.chars().any(|x| eqi(x, s[i])))) != *neg) { r.insert(i + 1); },
         N::Ref(_) => { r.insert(i); } // not meaningful without captures; only used through bt
         N::Bol => if i == 0 || (fl.contains('m') && i < s.len() && s[i - 1] == '\n') { r.insert(i); },
         N::Eol => if i == s.len() || (fl.contains('m') && s[i] == '\n') { r.insert(i); },
@@ -111,7 +116,7 @@ fn bt(n: &N, s: &[char], i: usize, fl: &str, k: &mut dyn FnMut(usize) -> bool) -
         N::Ref(g) => {
             match CAPS.with(|c| c.borrow()[*g]) {
                 None => k(i),
-                Some((a, b)) => { let l = b - a; if i + l <= s.len() && s[a..b] == s[i..i + l] { k(i + l) } else { false } }
+                Some((a, b)) => { let l = b - a; if i + l <= s.len() && (s[a..b] == s[i..i + l] || (fl.contains('i') && (0..l).all(|x| eqi(s[a + x], s[i + x])))) { k(i + l) } else { false } }
             }
         }
         N::Ch(_) | N::Dot | N::Cls(..) | N::Bol | N::Eol => {
@@ -184,6 +189,7 @@ fn ref_replace(n: &N, s: &[char], fl: &str) -> Option<String> {
 
 fn atoms() -> Vec<N> {
     let mut v = vec![N::Ch('a'), N::Ch('b'), N::Dot, N::Cls("ab", false), N::Cls("a", true), N::Bol, N::Eol];
+    if std::env::var("TRIAGE_I").is_ok() { v = vec![N::Ch('a'), N::Ch('A'), N::Ch('b'), N::Ch('k'), N::Ch('\u{212A}'), N::Cls("ab", false), N::Cls("A", true), N::Cls("k", false), N::Dot]; }
     if std::env::var("TRIAGE_REFS").is_ok() { v = vec![N::Ch('a'), N::Ch('b'), N::Cls("ab", false), N::Ref(1)]; }
     v
 }
@@ -273,6 +279,65 @@ fn diff_enum() {
             total += 1;
             for s in &inputs {
                 let st: String = s.iter().collect();
+                if std::env::var("TRIAGE_XSD").is_ok() {
+                    // C17: a pattern of the common subset gives identical results under both dialects
+                    let pc = p.replace("(?:", "(");
+                    if pc.replace("[^", "[").contains('^') || pc.contains('$') { break; }
+                    let dbg = format!("{:?}", n);
+                    if dbg.contains("false, \"") { break; } // a reluctant quantifier
+                    let (a, b) = (Regex::xpath(&pc, fl), Regex::xsd(&pc, fl));
+                    match (a, b) {
+                        (Ok(a), Ok(b)) => {
+                            let ra = (a.is_match(&st), a.replace_all(&st, "<$0|$1>").ok(), a.tokenize(&st).map(|t| t.collect::<Vec<_>>()).ok(), a.analyze(&st).map(|t| format!("{:?}", t.collect::<Vec<_>>())).ok());
+                            let rb = (b.is_match(&st), b.replace_all(&st, "<$0|$1>").ok(), b.tokenize(&st).map(|t| t.collect::<Vec<_>>()).ok(), b.analyze(&st).map(|t| format!("{:?}", t.collect::<Vec<_>>())).ok());
+                            if ra != rb { bad += 1; if bad <= 100 { println!("XSD {:?} on {:?}: xpath {:?} xsd {:?}", pc, st, ra, rb); } break; }
+                        }
+                        (a, b) => { if a.is_ok() != b.is_ok() { bad += 1; if bad <= 100 { println!("XSD {:?}: xpath ok={} xsd ok={}", pc, a.is_ok(), b.is_ok()); } } break; }
+                    }
+                    continue;
+                }
+                if std::env::var("TRIAGE_X").is_ok() {
+                    // flag x: the same pattern with white space sprinkled in (outside classes) must behave identically
+                    let mut px = String::new();
+                    let mut depth = 0i32; let mut esc = false;
+                    for (ci, c) in p.chars().enumerate() {
+                        if depth == 0 && !esc { match ci % 4 { 0 => px.push(' '), 1 => px.push('\n'), 2 => px.push('\t'), _ => px.push('\r') } }
+                        px.push(c);
+                        if esc { esc = false; } else if c == '\\' { esc = true; } else if c == '[' { depth += 1; } else if c == ']' { depth -= 1; }
+                    }
+                    px.push(' ');
+                    match Regex::xpath(&px, &format!("{}x", fl)) {
+                        Err(e) => { bad += 1; if bad <= 100 { println!("X {:?} rejected with x: {:?}", px, e); } break; }
+                        Ok(rx) => {
+                            let (a, b) = (re.is_match(&st), rx.is_match(&st));
+                            let (ra, rb) = (re.replace_all(&st, "<$0>").ok(), rx.replace_all(&st, "<$0>").ok());
+                            if a != b || ra != rb { bad += 1; if bad <= 100 { println!("X {:?} vs {:?} on {:?}: {} {:?} / {} {:?}", p, px, st, a, ra, b, rb); } break; }
+                        }
+                    }
+                    continue;
+                }
+                if std::env::var("TRIAGE_Q").is_ok() {
+                    // flag q: the pattern text is a literal
+                    match Regex::xpath(&p, &format!("{}q", fl)) {
+                        Err(e) => { bad += 1; if bad <= 100 { println!("Q {:?} rejected with q: {:?}", p, e); } break; }
+                        Ok(rq) => {
+                            for hay in [st.clone(), format!("{}{}", st, p), format!("{}{}{}", p, st, p), format!("x{}y{}", p, p)] {
+                                let want = hay.contains(p.as_str());
+                                let got = rq.is_match(&hay);
+                                let wr = hay.replace(p.as_str(), "<$0\\>");
+                                let gr = rq.replace_all(&hay, "<$0\\>");
+                                let wt: Vec<&str> = if hay.is_empty() { vec![] } else { hay.split(p.as_str()).collect() };
+                                let gt = rq.tokenize(&hay).map(|t| t.collect::<Vec<_>>());
+                                let an = rq.analyze(&hay).map(|a| a.count());
+                                if want != got || gr.as_deref() != Ok(wr.as_str()) || gt.as_ref().map(|v| v.iter().map(|s| s.as_str()).collect::<Vec<_>>()) != Ok(wt.clone()) || an.is_err() {
+                                    bad += 1; if bad <= 100 { println!("Q {:?} on {:?}: is_match {} want {}; replace {:?} want {:?}; tokens {:?} want {:?}; analyze {:?}", p, hay, got, want, gr, wr, gt, wt, an); }
+                                    break;
+                                }
+                            }
+                        }
+                    }
+                    break;
+                }
                 if std::env::var("TRIAGE_API").is_ok() {
                     // C04/C06/C16 shaped sanity: partition, token count bound, no empty match
                     let mut msg = String::new();
